@@ -440,11 +440,7 @@ nextStateFile:
 	if err != nil {
 		return nil, err
 	}
-	if len(mgr.builder.KnownPcaps()) != len(cachedKnownPcapData) {
-		if err := mgr.saveState(); err != nil {
-			return nil, fmt.Errorf("unable to save state: %w", err)
-		}
-	}
+	knownPcapsChanged := len(mgr.builder.KnownPcaps()) != len(cachedKnownPcapData)
 	mgr.pcapOverIPPackets = make(chan pcapOverIPPacket, 100)
 	mgr.pcapOverIPCmd = make(chan pcapOverIPCmd, 1)
 
@@ -461,6 +457,12 @@ nextStateFile:
 		mgr.startMergeJobIfNeeded()
 		for a := range pcapOverIPEndpoints {
 			mgr.pcapOverIPEndpoints = append(mgr.pcapOverIPEndpoints, mgr.newPcapOverIPEndpoint(ctx, a))
+		}
+		if knownPcapsChanged {
+			// only now: the state that is written has to include the endpoints restored above
+			if err := mgr.saveState(); err != nil {
+				log.Printf("unable to save state: %v", err)
+			}
 		}
 	}
 	return &mgr, nil
